@@ -61,9 +61,9 @@ checks = {
    text="Because every os call of the repository goes through the simulated disk seam, the oracle sees each operation the real code attempts - including ones that fail or are undone - and refuses (and reports) any whose cleaned absolute path is outside the data and log directories; a sentinel tree catches writers that bypass the seam.",
    note=TRUST + " Reads of the fixed configured locations defaultDBs/, static/, server.yaml, /proc are allowed. Scroll ids are not driven."),
  "C16": dict(level="exploration", ref="DESIGN.md §4 C16",
-   technique="deterministic simulation on the fake clock: logical events delivered through the real HTTP routes of four protocols at known simulated instants, with clock jumps between receipt, flush and query; stored fields and times compared with the protocol mapping and the carried / arrival time",
-   text="The fake clock makes 'the time of arrival is used only when the event has no time of its own' an exact equality: each event's stored time must be its carried time, or lie in the simulated arrival interval iff none was carried, even though hours of simulated time pass before the flush and before the query. Fields, numbers and messages must be preserved under each protocol's mapping.",
-   note=TRUST + " Scheduler off for this check (clock only). Driven: Elasticsearch bulk and single-document, Splunk HEC, Loki push JSON. Not driven: OTLP logs/traces/metrics (protobuf), Prometheus remote write; OpenTSDB put is covered by C08."),
+   technique="deterministic simulation on the fake clock under the seeded scheduler: logical events delivered through the real HTTP routes of four protocols at known simulated instants, with clock jumps between receipt, flush and query; stored fields and times compared with the protocol mapping and the carried / arrival time",
+   text="The fake clock makes 'the time of arrival is used only when the event has no time of its own' an exact equality: each event's stored time must be its carried time, or lie in the simulated arrival interval iff none was carried, even though minutes (in one thorough run in twenty: hours) of simulated time pass before the flush and before the query. Fields, numbers and messages must be preserved under each protocol's mapping.",
+   note=TRUST + " Driven: Elasticsearch bulk and single-document, Splunk HEC, Loki push JSON. Not driven: OTLP logs/traces/metrics (protobuf), Prometheus remote write; OpenTSDB put is covered by C08."),
  "C17": dict(level="exploration", ref="DESIGN.md §4 C17",
    technique="deterministic simulation: seeded schedule search over the query lifecycle (concurrent synchronous and websocket queries incl. malformed texts, stalling/disconnecting websocket clients over synchronous in-memory pipes, canceller, stall faults that let the short query time-out fire on the fake clock, admission limit 1-5, memory-starved histories in which the limiter refuses search memory), checked for admission limits, bounded answer time after faults stop, cancel promptness, empty tables and exact goroutine-leak detection after quiescence",
    text="Query clients, a canceller, a stall-fault injector and a monitor run as tasks of the seeded scheduler against the real admission queue, time-out goroutines and query pipeline; because the simulator owns task creation, 'no goroutine of the query remains' is decided exactly by comparing the live task set with the pre-workload baseline; deadlocks, hangs, spins and panics of the node are violations.",
